@@ -763,7 +763,8 @@ func (c *Ctx) loopElement(info *types.Info, body *ast.BlockStmt, at ast.Node, e 
 	if loop == nil {
 		return "", false
 	}
-	var idx, val types.Object
+	var idx, val, listObj types.Object
+	listInit := ""
 	switch l := loop.(type) {
 	case *ast.RangeStmt:
 		container = c.canon(info, l.X, o)
@@ -777,8 +778,17 @@ func (c *Ctx) loopElement(info *types.Info, body *ast.BlockStmt, at ast.Node, e 
 		if !isIndexLoop(info, l) {
 			return "", false
 		}
-		idx = identObj(info, l.Init.(*ast.AssignStmt).Lhs[0])
+		init := l.Init.(*ast.AssignStmt)
+		idx = identObj(info, init.Lhs[0])
 		be := unparen(l.Cond).(*ast.BinaryExpr)
+		if len(init.Lhs) > 1 {
+			// `for i, xs := 0, f(); i < len(xs); i++`: the counter is the variable the condition bounds
+			for _, lh := range init.Lhs {
+				if ob := identObj(info, lh); ob != nil && (ob == identObj(info, be.X) || ob == identObj(info, be.Y)) {
+					idx = ob
+				}
+			}
+		}
 		bound := be.Y
 		if identObj(info, be.Y) == idx {
 			bound = be.X
@@ -788,6 +798,14 @@ func (c *Ctx) loopElement(info *types.Info, body *ast.BlockStmt, at ast.Node, e 
 			return "", false
 		}
 		container = bk[4 : len(bk)-1]
+		// the list declared in the loop's own init stands for what it is initialised with
+		if lc, isCall := unparen(bound).(*ast.CallExpr); isCall && len(lc.Args) == 1 && len(init.Lhs) == len(init.Rhs) {
+			for i, lh := range init.Lhs {
+				if ob := identObj(info, lh); ob != nil && ob == identObj(info, lc.Args[0]) {
+					listObj, listInit = ob, c.canon(info, init.Rhs[i], o)
+				}
+			}
+		}
 	}
 	var is func(e ast.Expr, depth int) bool
 	is = func(e ast.Expr, depth int) bool {
@@ -810,9 +828,15 @@ func (c *Ctx) loopElement(info *types.Info, body *ast.BlockStmt, at ast.Node, e 
 			return false
 		}
 		if ie, isIx := e.(*ast.IndexExpr); isIx && idx != nil {
+			if listObj != nil && identObj(info, ie.X) == listObj {
+				return identObj(info, ie.Index) == idx
+			}
 			return identObj(info, ie.Index) == idx && c.canon(info, ie.X, o) == container
 		}
 		return false
+	}
+	if listObj != nil {
+		return listInit, is(e, 2)
 	}
 	return container, is(e, 2)
 }
